@@ -27,6 +27,9 @@ pub enum Query {
   FindRange(u64, u64),
   List(u64, u32),
   Rare(u64),
+  Common(u64),
+  Height(u64),
+  SatHeight(u64),
 }
 
 #[derive(Clone, Debug)]
@@ -117,6 +120,18 @@ pub fn case_line(c: &Case) -> Line {
         l.push(4u8);
         l.push(*s);
       }
+      Query::Common(s) => {
+        l.push(5u8);
+        l.push(*s);
+      }
+      Query::Height(h) => {
+        l.push(6u8);
+        l.push(*h);
+      }
+      Query::SatHeight(s) => {
+        l.push(7u8);
+        l.push(*s);
+      }
     }
   }
   l.done()
@@ -182,6 +197,9 @@ pub fn parse_case(line: &Line) -> Case {
         queries.push(Query::List(i, v))
       }
       4 => queries.push(Query::Rare(c.u64())),
+      5 => queries.push(Query::Common(c.u64())),
+      6 => queries.push(Query::Height(c.u64())),
+      7 => queries.push(Query::SatHeight(c.u64())),
       _ => break,
     }
   }
@@ -516,6 +534,37 @@ fn gen_queries(rng: &mut Rng, chain: &[ABlock]) -> Vec<Query> {
   }
   q.push(Query::List(0, crate::NULL_VOUT));
   q.push(Query::List(ids.len() as u64 + 50, 0));
+  // pure arithmetic over all epochs: epoch boundaries, block-first sats, random
+  for _ in 0..8 {
+    let e = rng.below(36);
+    let hh = e * 210_000;
+    let h = match rng.below(5) {
+      0 => hh,
+      1 => hh.saturating_sub(1),
+      2 => hh + rng.below(210_000),
+      3 => rng.below(7_500_000),
+      _ => *rng.pick(&[0u64, 1, 6_929_999, 6_930_000, 6_930_001, u32::MAX as u64]),
+    };
+    q.push(Query::Height(h));
+    // a sat derived from that height (below the supply), and its neighbours
+    // (only to choose inputs: first sat and subsidy of that height as the crate computes them)
+    let hq = ordinals::Height(h.min(6_929_999) as u32);
+    let sub = hq.subsidy();
+    let first = hq.starting_sat().n();
+    let s = match rng.below(6) {
+      0 => first,
+      1 => first.saturating_sub(1),
+      2 => first + 1,
+      3 => first + rng.below(sub.max(1)),
+      4 => rng.below(supply),
+      _ => rng.below(supply / 9_765_625) * 9_765_625,
+    }
+    .min(supply - 1);
+    q.push(Query::Common(s));
+    q.push(Query::SatHeight(s));
+  }
+  q.push(Query::SatHeight(supply));
+  q.push(Query::Common(supply));
   q
 }
 
